@@ -7,6 +7,9 @@
 (* (the output relation Route, written from the property text), Deliver    *)
 (* hands it to one owed output (in any order -- the property does not order *)
 (* them), Return closes the transaction when nothing is owed any more.     *)
+(* The configuration (table, outputs, end devices, default, hub population) *)
+(* is state: Reconfigure steps between puts change it, and PutIn routes by *)
+(* the configuration in force at that moment -- nothing is remembered.     *)
 (* A delivery outside the owed set, a second delivery, a missing delivery  *)
 (* or an exception on a valid input is simply not a behaviour.             *)
 (*                                                                         *)
@@ -26,7 +29,7 @@
 (***************************************************************************)
 EXTENDS Integers, Sequences, FiniteSets, TLC
 
-VARIABLES cfg,     \* frozen parameters of the element (see below)
+VARIABLES cfg,     \* the configuration of the element IN FORCE NOW (see below); changed only by Reconfigure steps
           phase,   \* "idle" | "busy" | "done" (put returned) | "failed" (put raised)
           cur,     \* the put in progress / last put: [f |-> flow, s |-> sender endpoint (hub; 0 = not attached), n |-> serial]
           heap,    \* sequence of header-field vectors, one per packet object of the current put
@@ -40,7 +43,8 @@ rvars == <<cfg, phase, cur, heap, orig, owed, dl, via, boomed>>
 (* cfg = [kind  |-> "flow" | "fib" | "simple" | "fair" | "hub" | "split" | "nsplit",                 *)
 (*        nouts |-> number of outputs / ports / endpoints,                                           *)
 (*        dflt  |-> 1 iff a default output exists,                                                   *)
-(*        table |-> forwarding table, a sequence of <<flow, port>> (ports 1..nouts, one per flow),    *)
+(*        table |-> forwarding table, a sequence of <<flow, port>> (one per flow; an entry naming a   *)
+(*                  port that does not exist (yet) is no usable entry),                              *)
 (*        ends  |-> sequence of the flows that have a registered end device,                         *)
 (*        pdev  |-> hub: pdev[i] = 1 iff endpoint i was attached with a port device,                  *)
 (*        conn  |-> splitter: conn[i] = 1 iff output i is connected,                                 *)
@@ -54,7 +58,7 @@ SplitKinds == {"split", "nsplit"}
 
 WellFormed(c) ==
   /\ c.nouts >= 0 /\ c.dflt \in {0, 1}
-  /\ \A i \in DOMAIN c.table : c.table[i][2] \in 1..c.nouts
+  /\ \A i \in DOMAIN c.table : c.table[i][2] >= 1
   /\ \A i, j \in DOMAIN c.table : c.table[i][1] = c.table[j][1] => i = j
   /\ c.kind = "simple" => c.dflt = 0
   /\ c.kind = "hub" => Len(c.pdev) = c.nouts
@@ -63,7 +67,7 @@ WellFormed(c) ==
   /\ c.kind = "nsplit" => c.nouts >= 2
 
 (* ---------------- the output relation ---------------- *)
-Ports(c, f) == {e[2] : e \in {x \in Range(c.table) : x[1] = f}}
+Ports(c, f) == {e[2] : e \in {x \in Range(c.table) : x[1] = f /\ x[2] \in 1..c.nouts}}
 Default(c) == IF c.dflt = 1 THEN {<<"d", 0>>} ELSE {}
 \* FlowDemux, SimplePacketSwitch: flow f to output f (counted from 0), else default, else nowhere
 RouteFlow(c, f) == IF f >= 0 /\ f + 1 <= c.nouts THEN {<<"o", f + 1>>} ELSE Default(c)
@@ -139,6 +143,31 @@ Raise ==
   /\ phase' = "failed"
   /\ UNCHANGED <<cfg, cur, heap, orig, owed, dl, via, boomed>>
 
+(* ---------------- reconfiguration while the element is in use ---------------- *)
+(* Between two puts the user may change the configuration through the public API.  Every put is     *)
+(* routed by the configuration in force at that moment: PutIn reads cfg, nothing else is remembered. *)
+Reconf(c) ==
+  /\ phase # "busy"
+  /\ cfg' = c
+  /\ phase' = "idle" /\ heap' = <<>> /\ orig' = <<>> /\ owed' = {} /\ dl' = <<>> /\ via' = {} /\ boomed' = FALSE
+  /\ UNCHANGED cur
+Without(t, f) == SelectSeq(t, LAMBDA e : e[1] # f)
+IsFib == cfg.kind \in {"fib", "fair"}
+\* table[f] = p on the table object in use / del table[f] / a new table through the `fib` setter
+SetEntry(f, p) == IsFib /\ p >= 1 /\ Reconf([cfg EXCEPT !.table = Append(Without(@, f), <<f, p>>)])
+DelEntry(f) == IsFib /\ (\E e \in Range(cfg.table) : e[1] = f) /\ Reconf([cfg EXCEPT !.table = Without(@, f)])
+ReplaceTable(t) == IsFib /\ Reconf([cfg EXCEPT !.table = t])
+\* outs.append(device)
+AppendOut == cfg.kind \in {"flow", "fib"} /\ Reconf([cfg EXCEPT !.nouts = @ + 1])
+\* ends[f] = device / del ends[f]
+SetEnd(f) == IsFib /\ f \notin Range(cfg.ends) /\ Reconf([cfg EXCEPT !.ends = Append(@, f)])
+DelEnd(f) == IsFib /\ f \in Range(cfg.ends) /\ Reconf([cfg EXCEPT !.ends = SelectSeq(@, LAMBDA x : x # f)])
+\* default_out = device / None
+SetDefault(d) == cfg.kind \in {"flow", "fib", "fair"} /\ d \in {0, 1} /\ Reconf([cfg EXCEPT !.dflt = d])
+\* hub.add_endpoint(endpoint, port device or None)
+AddEndpoint(pd) == cfg.kind = "hub" /\ pd \in {0, 1}
+                   /\ Reconf([cfg EXCEPT !.nouts = @ + 1, !.pdev = Append(@, pd)])
+
 (* ---------------- the clauses of C18, phrased on the delivery history ---------------- *)
 Dls == Range(dl)
 To(oc, oi) == {i \in DOMAIN dl : dl[i].oc = oc /\ dl[i].oi = oi}
@@ -146,7 +175,7 @@ NDl == Len(dl)
 Done == phase = "done"
 IsDemux == cfg.kind \in DemuxKinds
 F == cur.f
-InTable == \E e \in Range(cfg.table) : e[1] = F
+InTable == \E e \in Range(cfg.table) : e[1] = F /\ e[2] \in 1..cfg.nouts     \* a usable entry
 HasEnd == F \in Range(cfg.ends)
 
 \* every packet reaches at most one output, and it is the packet itself
